@@ -97,6 +97,40 @@ class Partial:
 
 
 # ------------------------------------------------------------------------------------------------
+# retention monitor: objects the library handed out must not change afterwards unless the caller
+# changes them (a library that keeps a reference to a returned object and edits it during a later
+# call breaks "the returned circuit prepares the requested state" after the fact)
+
+class Retained:
+    def __init__(self, digest, limit=400):
+        self.digest = digest
+        self.limit = limit
+        self.items = []
+
+    def add(self, obj, info):
+        if len(self.items) < self.limit:
+            try:
+                self.items.append((obj, self.digest(obj), info))
+            except Exception:       # noqa: BLE001
+                pass
+
+    def changed(self):
+        """-> list of (info, old digest, new digest) for objects that changed since they were returned."""
+        out = []
+        for obj, d0, info in self.items:
+            try:
+                d1 = self.digest(obj)
+            except Exception as e:  # noqa: BLE001
+                d1 = "digest failed: %s" % type(e).__name__
+            if d1 != d0:
+                out.append((info, d0, d1))
+        return out
+
+    def clear(self):
+        del self.items[:]
+
+
+# ------------------------------------------------------------------------------------------------
 # calling the library
 
 def call(fn, *a, **kw):
@@ -301,6 +335,13 @@ def run_check(pid, tier, seed):
         total = execute(mod, tasks)
         if total.errors:
             raise Inconclusive("harness error: " + total.errors[0])
+        if hasattr(mod, "second_round"):
+            tasks2 = mod.second_round(total, tier, seed)
+            if tasks2:
+                total.merge(execute(mod, tasks2), getattr(mod, "merge_extra", None))
+                tasks = tasks + tasks2
+                if total.errors:
+                    raise Inconclusive("harness error: " + total.errors[0])
         if hasattr(mod, "finalize"):
             mod.finalize(total, tier, seed)
         if total.errors:
